@@ -36,12 +36,14 @@ def block_sums(data, n):
 def replay_bin(data, n):
     ip, _, _ = _mods()
     data = numpy.asarray(data, dtype=float)
-    got = ip.binImgs(data.copy(), n)
+    work = data.copy()
+    got = ip.binImgs(work, n)
+    got2 = ip.binImgs(work, n)
     want = numpy.zeros(data.shape[:-2] + (data.shape[-2] // n, data.shape[-1] // n))
     for idx in numpy.ndindex(*want.shape):
         want[idx] = data[idx[:-2] + (slice(idx[-2] * n, idx[-2] * n + n), slice(idx[-1] * n, idx[-1] * n + n))].sum()
-    bad = got.shape != want.shape or not numpy.allclose(got, want)
-    return bool(bad), dict(what="binImgs differs from the n x n block sums", data=data, n=n, got=got, want=want)
+    bad = got.shape != want.shape or not numpy.allclose(got, want) or not numpy.allclose(got2, want)
+    return bool(bad), dict(what="binImgs differs from the n x n block sums (first or repeated call on the same array)", data=data, n=n, got=got, second=got2, want=want)
 
 
 def case_bin(ctx, shape, n):
@@ -49,12 +51,15 @@ def case_bin(ctx, shape, n):
     data = symarr("d", shape)
     ctx.encoded(ip.binImgs)
     ctx.bounds.update(shape=list(shape), n=n, data="symbolic real")
+    work = data.copy()
     with npx.symbolic(ip):
-        out = ip.binImgs(data, n)
+        out = ip.binImgs(work, n)
+        out_again = ip.binImgs(work, n)      # the same array object a second time (no state may be left in it)
     ctx.paths += 1
     rp = lambda m: replay_bin(m(data), n)
     want = block_sums(data, n)
     ctx.prove("binImgs = n x n block sums", [], all_eq(numpy.asarray(out, dtype=object), want), replay=rp)
+    ctx.prove("binning the same array a second time returns the same block sums", [], all_eq(numpy.asarray(out_again, dtype=object), want), replay=rp)
     tot_o = Sym(0)
     for e in numpy.asarray(out, dtype=object).flat:
         tot_o = tot_o + e
@@ -207,6 +212,13 @@ class ComplexSA(core.SA):
         return numpy.dtype("complex128")
 
 
+class Complex64SA(core.SA):
+    """... or as single-precision complex"""
+    @property
+    def dtype(self):
+        return numpy.dtype("complex64")
+
+
 class RBSStub:
     """RectBivariateSpline by contract: an interpolating spline (s=0) returns the data at its nodes; any other
     value is an uninterpreted function of (data, kx, ky, x, y).  Two splines built from the same data and
@@ -249,7 +261,7 @@ def replay_zoom(arr, new, order):
     tries = [arr]
     rng = rng_for("zoomreplay%s%d%d" % (arr.shape, new, order))
     for _ in range(2):
-        tries.append(rand_complex(rng, arr.shape) if numpy.iscomplexobj(arr) else rand_real(rng, arr.shape))
+        tries.append(rand_complex(rng, arr.shape).astype(arr.dtype) if numpy.iscomplexobj(arr) else rand_real(rng, arr.shape))
     last = None
     for a in tries:
         try:
@@ -283,17 +295,17 @@ def _replay_zoom_one(arr, new, order):
     return bad, dict(what="; ".join(what) or "zoom_rbs contract", array=arr, new_size=new, order=order)
 
 
-def case_zoom(ctx, n, order, cplx):
+def case_zoom(ctx, n, order, cplx, single=False):
     ip, _, _ = _mods()
     ctx.encoded(ip.zoom_rbs)
     ctx.bounds.update(n=n, order=order, complex=cplx, spline="RectBivariateSpline by contract (interpolates its nodes; otherwise uninterpreted)")
     ctx.assume("RectBivariateSpline(s=0) interpolates its data at the nodes and is a function of (data, kx, ky, point): FITPACK itself is not analysed")
     arr = symarr("a", (n, n), cplx=cplx)
     if cplx:
-        arr = arr.view(ComplexSA)
+        arr = arr.view(Complex64SA if single else ComplexSA)
     extra = {ip.__name__: {"RectBivariateSpline": RBSStub}}
     for new in (n, 2 * n - 1, n + 1):
-        rp = lambda m, new=new: replay_zoom(numpy.asarray(m(numpy.asarray(arr).view(core.SA)), dtype=complex if cplx else float), new, order)
+        rp = lambda m, new=new: replay_zoom(numpy.asarray(m(numpy.asarray(arr).view(core.SA)), dtype=(numpy.complex64 if single else complex) if cplx else float), new, order)
         try:
             with npx.symbolic(ip, extra=extra):
                 out = numpy.asarray(ip.zoom_rbs(arr, (new, new), order=order), dtype=object)
@@ -325,6 +337,8 @@ def build_cases(tier):
         for cplx in (False, True):
             cases.append(("zoom_rbs/n=%d/order=%d/%s" % (order + 1 if order > 1 else 2, order, "complex" if cplx else "real"), case_zoom,
                           dict(n=max(order + 1, 2), order=order, cplx=cplx)))
+        cases.append(("zoom_rbs/n=%d/order=%d/complex64" % (order + 1 if order > 1 else 2, order), case_zoom,
+                      dict(n=max(order + 1, 2), order=order, cplx=True, single=True)))
     return cases
 
 
